@@ -1144,3 +1144,130 @@ func runBal2(m *Model, r *RuleResult) {
 		}
 	}
 }
+
+// ---------- DELTA-1 ----------
+
+func init() {
+	register(&Rule{
+		ID: "DELTA-1",
+		Doc: "the layering solver honours every edge's minimum length: in package phase2 a layer stored into Node.Layer that is computed from another node's layer plus or minus an offset takes that offset from Edge.Delta (or from a computed slack), never from a non-zero constant. " +
+			"The layerer itself only ever sees Delta = 1, but the network-simplex positioner runs the same solver on an auxiliary graph whose edges carry half widths + spacing as Delta; a hard-wired 1 starts it from an infeasible ranking it does not repair, and neighbours of a layer end up overlapping or out of order",
+		Floor: 1,
+		Ctl:   []string{"internal__phase2__delta1.go.txt"},
+		Run:   runDelta1,
+	})
+}
+
+func runDelta1(m *Model, r *RuleResult) {
+	isLayerLoad := func(v ssa.Value) bool {
+		u, ok := v.(*ssa.UnOp)
+		if !ok || u.Op != token.MUL {
+			return false
+		}
+		fa, ok := u.X.(*ssa.FieldAddr)
+		if !ok {
+			return false
+		}
+		_, steps := fieldChain(fa)
+		return locOfSteps(steps) == igNode+".Layer"
+	}
+	isDeltaLoad := func(v ssa.Value) bool {
+		u, ok := v.(*ssa.UnOp)
+		if !ok || u.Op != token.MUL {
+			return false
+		}
+		fa, ok := u.X.(*ssa.FieldAddr)
+		if !ok {
+			return false
+		}
+		_, steps := fieldChain(fa)
+		return strings.HasSuffix(locOfSteps(steps), ".Delta")
+	}
+	// does v reach a store into Node.Layer through max/min, phis, conversions and further sums
+	var reaches func(v ssa.Value, seen map[ssa.Value]bool) bool
+	reaches = func(v ssa.Value, seen map[ssa.Value]bool) bool {
+		if seen[v] || len(seen) > 64 {
+			return false
+		}
+		seen[v] = true
+		refs := v.Referrers()
+		if refs == nil {
+			return false
+		}
+		for _, ref := range *refs {
+			switch x := ref.(type) {
+			case *ssa.Store:
+				if x.Val == v {
+					if fa, ok := x.Addr.(*ssa.FieldAddr); ok {
+						_, steps := fieldChain(fa)
+						if locOfSteps(steps) == igNode+".Layer" {
+							return true
+						}
+					}
+				}
+			case *ssa.Phi:
+				if reaches(x, seen) {
+					return true
+				}
+			case *ssa.Convert:
+				if reaches(x, seen) {
+					return true
+				}
+			case *ssa.BinOp:
+				if (x.Op == token.ADD || x.Op == token.SUB) && reaches(x, seen) {
+					return true
+				}
+			case *ssa.Call:
+				if minMaxKind(&x.Call) != "" && reaches(x, seen) {
+					return true
+				}
+			}
+		}
+		return false
+	}
+	for _, f := range m.Src {
+		if shortPkg(pkgPathOf(f)) != "internal/phase2" || len(f.Blocks) == 0 {
+			continue
+		}
+		var bad []string
+		good := 0
+		eachInstr(f, func(in ssa.Instruction) {
+			bo, ok := in.(*ssa.BinOp)
+			if !ok || (bo.Op != token.ADD && bo.Op != token.SUB) {
+				return
+			}
+			var other ssa.Value
+			switch {
+			case isLayerLoad(bo.X):
+				other = bo.Y
+			case bo.Op == token.ADD && isLayerLoad(bo.Y):
+				other = bo.X
+			default:
+				return
+			}
+			if !reaches(bo, map[ssa.Value]bool{}) {
+				return
+			}
+			if c, ok := other.(*ssa.Const); ok && c.Value != nil {
+				if c.Int64() != 0 {
+					bad = append(bad, fmt.Sprintf("%s at %s", bo.String(), m.Pos(bo.Pos())))
+				}
+				return
+			}
+			if isDeltaLoad(other) {
+				good++
+			}
+		})
+		if len(bad) == 0 && good == 0 {
+			continue
+		}
+		key := "layer-offset-from-delta:" + funcKey(f)
+		ctl := m.FuncIsPosctl(f)
+		if len(bad) == 0 {
+			r.add(Obligation{Key: key, Pos: m.Pos(f.Pos()), Desc: fmt.Sprintf("%d layer(s) derived from a neighbour's layer, offset by the edge's Delta", good), Verdict: "holds", Control: ctl})
+		} else {
+			r.add(Obligation{Key: key, Pos: m.Pos(f.Pos()), Desc: "a layer derived from a neighbour's layer is offset by the edge's minimum length", Verdict: "violation",
+				Detail: strings.Join(uniq(bad), "; ") + " offsets a neighbour's layer by a constant and stores the result as a layer: edges whose Delta is not that constant (the positioner's separation edges) start infeasible", Control: ctl})
+		}
+	}
+}
